@@ -39,11 +39,11 @@ pub fn append_frame(app: &dyn Append, tid: u32, seq: u32, len: usize, with_newli
                     return app.append(&Record::builder().level(log::Level::Info).target("t").args(format_args!($t)).build())
                 };
             }
-            match seq {
-                0 => lit!("<t7:s0:l0:>"),
-                1 => lit!("<t7:s1:l5:LLLLL>"),
-                2 => lit!("<t7:s2:l40:LLLLLLLLLLLLLLLLLLLLLLLLLLLLLLLLLLLLLLLL>"),
-                3 => lit!("<t7:s3:l100:LLLLLLLLLLLLLLLLLLLLLLLLLLLLLLLLLLLLLLLLLLLLLLLLLLLLLLLLLLLLLLLLLLLLLLLLLLLLLLLLLLLLLLLLLLLLLLLLLLLL>"),
+            match (seq, len) {
+                (0, 0) => lit!("<t7:s0:l0:>"),
+                (1, 5) => lit!("<t7:s1:l5:LLLLL>"),
+                (2, 40) => lit!("<t7:s2:l40:LLLLLLLLLLLLLLLLLLLLLLLLLLLLLLLLLLLLLLLL>"),
+                (3, 100) => lit!("<t7:s3:l100:LLLLLLLLLLLLLLLLLLLLLLLLLLLLLLLLLLLLLLLLLLLLLLLLLLLLLLLLLLLLLLLLLLLLLLLLLLLLLLLLLLLLLLLLLLLLLLLLLLLL>"),
                 _ => {}
             }
         }
